@@ -80,6 +80,34 @@ def h_fiber_export(ctx):
         ctx.prove(f'second export equals the first: {k}', eq(p1[k], p2[k]))
 
 
+def h_roadm_export(ctx, policy):
+    """Roadm export -> reload -> export: node target of each policy, per-degree targets of all three kinds on different
+    degrees (symbolic values, 0 dBm included), per-degree impairment choices and design bands: every setting comes back on
+    its own degree and under its own key"""
+    eqpt = equipment()
+    key = {'pch': 'target_pch_out_db', 'psd': 'target_psd_out_mWperGHz', 'psw': 'target_out_mWperSlotWidth'}[policy]
+    node = ctx.real('node_target', lo=-30, hi=5) if policy == 'pch' else ctx.real('node_target', lo=1e-5, hi=1e-2)
+    d_pch, d_psd, d_psw = ctx.real('deg_pch_dbm', lo=-30, hi=5), ctx.real('deg_psd', lo=1e-5, hi=1e-2), ctx.real('deg_psw', lo=1e-5, hi=1e-2)
+    params = {key: node, 'per_degree_pch_out_db': {'east': d_pch}, 'per_degree_psd_out_mWperGHz': {'west': d_psd},
+              'per_degree_psd_out_mWperSlotWidth': {'north': d_psw}}
+    _, by = build_elements([{'uid': 'r', 'type': 'Roadm', 'params': params}], eqpt)
+    j1 = by['r'].to_json
+    p1 = j1['params']
+    ctx.prove('node target exported under its own key', eq(p1.get(key), node) and
+              sum(1 for k in ('target_pch_out_db', 'target_psd_out_mWperGHz', 'target_out_mWperSlotWidth') if p1.get(k) is not None) == 1)
+    for k, deg, v in (('per_degree_pch_out_db', 'east', d_pch), ('per_degree_psd_out_mWperGHz', 'west', d_psd),
+                      ('per_degree_psd_out_mWperSlotWidth', 'north', d_psw)):
+        got = p1.get(k, {})
+        ctx.prove(f'{k}: exactly the operator degree with its own value', list(got) == [deg] and (got[deg] is v or bool(eq(got[deg], v))),
+                  info=dict(key=k, exported={a: str(b) for a, b in got.items()}))
+    _, by2 = build_elements([deepcopy(j1)], eqpt)
+    p2 = by2['r'].to_json['params']
+    for k in ('per_degree_pch_out_db', 'per_degree_psd_out_mWperGHz', 'per_degree_psd_out_mWperSlotWidth'):
+        ctx.prove(f'second export equals the first: {k}', list(p2.get(k, {})) == list(p1.get(k, {})) and
+                  all(bool(eq(p2[k][d], p1[k][d])) for d in p1.get(k, {})))
+    ctx.prove('second export equals the first: node target', bool(eq(p2.get(key), p1.get(key))))
+
+
 def h_raman_fiber_export(ctx):
     """RamanFiber: export -> reload gives an element with the same pumps (powers as seen by the solver, i.e. after the output
     connector), temperature and parameters, for every connector loss and pump power; a second export equals the first"""
@@ -264,6 +292,8 @@ def jobs(tier):
         js.append(dict(name=f'H17b:edfa_export_reload:none={"+".join(nf) or "-"}', fn='h_edfa_export', params=dict(none_fields=nf), cost=10))
     js.append(dict(name='H17b:fiber_export_reload', fn='h_fiber_export', cost=10))
     js.append(dict(name='H17b:raman_fiber_export_reload', fn='h_raman_fiber_export', cost=10))
+    for pol in ('pch', 'psd', 'psw'):
+        js.append(dict(name=f'H17b:roadm_export_reload:{pol}', fn='h_roadm_export', params=dict(policy=pol), cost=10))
     for layout in ('single', 'single_user_values', 'spliced'):
         js.append(dict(name=f'H17a:line_export_reload_redesign:{layout}', fn='h_line_redesign', params=dict(layout=layout), cost=30,
                        continue_after_violation=True))
